@@ -39,6 +39,8 @@ META = {
             "Damage of every generated collective is compared with an own Basquin sum; the collective applied for the predicted Gassner cycles must give damage 1 under the matching rule; empty classes at the top, bottom and in between are required input classes.", "3 C11"),
     "C12": ("exploration", "runtime monitoring: reference-model oracle (geometric iso-damage line follower) and relation monitors (path independence, idempotence, fixed point, continuity, monotonicity, interface agreement, cycle conservation)",
             "FKM-Goodman amplitudes are compared with an independent geometric oracle; arbitrary five-segment diagrams are judged by the relations the property states; matrix transforms by cycle conservation per extra index level.", "3 C12"),
+    "C13": ("exploration", "runtime monitoring: icontract snapshot/postcondition contract on Broadcaster.broadcast (key-lookup oracle, operands-unchanged also on exceptional exit) + end-to-end scalar-loop oracle",
+            "Every broadcast call the workload makes, including the accessors internal ones, is judged by a contract: operands bitwise unchanged, identical result indices, every result row equals the original value for its key, no original row lost.", "3 C13"),
     "C03": ("exploration", "runtime monitoring: metamorphic relation monitors between executions (refinement, negation, "
             "affine map, NaN insertion, Series index types), sanitizer replays",
             "Relations between pairs of real executions, each with its own counter; ties that rounding may flip are "
